@@ -275,6 +275,11 @@ func execute(t *testing.T, p *Plan, dir, tag string, idx []int, tool string, kee
 	os.MkdirAll(ph.gotmp, 0o777)
 	os.MkdirAll(ph.wroot, 0o777)
 	sdir := filepath.Join(dir, "scripts-"+tag)
+	if tag == "p" {
+		// the earlier call runs an older edition of the batch's first script file: same path, same length, and -
+		// the simulated clock starts at the same instant in every phase - the same modification time
+		sdir = filepath.Join(dir, "scripts-b")
+	}
 	os.MkdirAll(sdir, 0o777)
 	// a directory of somebody else's, with restrictive permissions, that scripts may link to
 	ph.outside = filepath.Join(dir, "outside-"+tag)
@@ -294,13 +299,22 @@ func execute(t *testing.T, p *Plan, dir, tag string, idx []int, tool string, kee
 			f = filepath.Join(sdir, fmt.Sprintf("d%d", i), baseNames[p.Scripts[i].Base])
 		}
 		if p.Missing != i+1 {
-			os.WriteFile(f, []byte(scriptText(i, p.Scripts[i], tool)), 0o666)
+			text := scriptText(i, p.Scripts[i], tool)
+			if tag == "p" {
+				text = strings.ReplaceAll(text, "content of script", "CONTENT OF SCRIPT")
+			}
+			os.WriteFile(f, []byte(text), 0o666)
+		} else {
+			os.Remove(f) // (the earlier call may have left its edition there)
 		}
 		files = append(files, f)
 		byFile[f] = i
 	}
 	simos.Reset()
 	simtime.Reset()
+	for _, f := range files {
+		simos.SetMtime(f, time.Date(2000, 1, 1, 0, 0, 0, 0, time.UTC))
+	}
 	bin := tskit.BinDir("stub")
 	host := map[string]string{"PATH": bin, "GOTMPDIR": ph.gotmp, "HOME": "/host-home", "TMPDIR": ph.gotmp, canary: "leaked-host-value", "USER": "hostuser"}
 	if p.HostRace {
@@ -775,7 +789,7 @@ var harness = &simcheck.Harness{
 	Property: "C04",
 	Level:    "exploration",
 	Rule: "rapid draws a batch of 2-4 scripts of 2-9 lines each over the same relative names (mkdir cp mv rm cd env exists, foreground / background stub processes that create files and print their environment and cwd, background programs that exit but leave a descendant holding their output pipes for 150-450 ms, wait, " +
-		"[exec:tool] guards with per-script PATHs (a shared tool directory that only some scripts have on PATH; a $WORK/bin that every script puts on PATH and only some install the program into), stop, skip, failing and negated lines, probe and defer custom commands, custom commands that skip or fail the script directly through the T of Env.T, symbolic links from the work directory to a restricted directory of somebody else's, a PATH without the program, a background name used twice), retention options (TestWork / WorkdirRoot), RequireUniqueNames with a duplicate entry, a duplicate (shorter) entry without it - the later one must be what the script finds, " +
+		"[exec:tool] guards with per-script PATHs (a shared tool directory that only some scripts have on PATH; a $WORK/bin that every script puts on PATH and only some install the program into), stop, skip, failing and negated lines, probe and defer custom commands, custom commands that skip or fail the script directly through the T of Env.T, symbolic links from the work directory to a restricted directory of somebody else's, a PATH without the program, a background name used twice), retention options (TestWork / WorkdirRoot), RequireUniqueNames with a duplicate entry, an earlier RunT call of the process that ran an older edition of the first script file (same path, same length, same simulated mtime), a duplicate (shorter) entry without it - the later one must be what the script finds, " +
 		"a failing Setup, a script file that has vanished, optionally an earlier RunT call in the same process that asked for retention, host GORACE, verbosity, a -parallel limit and a schedule; the batch runs once, then every script runs alone; non-trivial = more context switches than scripts+2; distinct by decision-trace hash",
 	Gen:     genPlan,
 	NewPlan: func() any { return &Plan{} },
